@@ -127,4 +127,11 @@ def flat : List Node → List Nat
 def splice (a : List Nat) (t pos ins del : Nat) : List Nat :=
   a.take pos ++ List.replicate ins t ++ a.drop (pos + del)
 
+/-- `updateTime` refuses (panics on) a report whose previous value carries the merge mark unless it equals the
+stamp of the operation.  The delete loop reports exactly the lines of the deleted segment (`delLoop_emits`), so an
+in-range request panics for this reason iff some deleted line is merge-marked with another value. -/
+def markClash (ns : List Node) (t pos del : Nat) : Bool :=
+  pos + del ≤ (flat ns).length &&
+  (((flat ns).drop pos).take del).any fun v => v % (MARK + 1) = MARK && v != t
+
 end Fu
